@@ -195,6 +195,8 @@ impl MT104 {
                     // These variants are for Field50InstructingParty
                     instructing_party =
                         parser.parse_optional_variant_field::<Field50InstructingParty>("50")?;
+                    // The creditor (option A or K) may follow the instructing party
+                    creditor = parser.parse_optional_variant_field::<Field50Creditor>("50")?;
                 }
                 "A" | "K" => {
                     // These variants are for Field50Creditor
@@ -241,6 +243,9 @@ impl MT104 {
                         // These variants are for Field50InstructingParty
                         instructing_party_tx =
                             parser.parse_optional_variant_field::<Field50InstructingParty>("50")?;
+                        // The creditor (option A or K) may follow the instructing party
+                        creditor_tx =
+                            parser.parse_optional_variant_field::<Field50Creditor>("50")?;
                     }
                     "A" | "K" => {
                         // These variants are for Field50Creditor
